@@ -1,5 +1,7 @@
 import CrdtModel.Audit.Tool
 import CrdtModel.Props.C17
+import CrdtModel.Props.C17Map
 import CrdtModel.Witness.ValidateMergeAddAll
 #audit_ns Crdt.C17
 #audit_ns Crdt.Witness
+#audit_ns Crdt.CMap
